@@ -460,6 +460,31 @@ theorem truncated_is_protocol_error_without_file (hI : ChunkInvariant I) (c : Co
 example : Outcome.observed toy (readBodyFrom toy (setup toy .gzip) [[0x1f, 0x8b], [1, 65]]) false = .error .ProtocolError := by decide
 example : Outcome.observed toy (readBodyFrom toy (setup toy .gzip) [[0x1f, 0x8b], [1, 65, 0]]) false = .ok [] := by decide
 
+/-- **Decoder state is per response.**  When one Stream object reads a sequence
+of responses, every body is decoded exactly as if it were the only response
+ever read through a fresh Stream — whatever decoder state `d` the object starts
+with and whatever came before (a finished gzip stream, a failed one, …). -/
+theorem sequence_is_per_response (d : Dec I) (rs : List (Option Str × List Bytes)) :
+    readSeqFrom I d rs = rs.map (fun r => readBody I (codingOf (r.1.getD [])) r.2) := by
+  induction rs generalizing d with
+  | nil => rfl
+  | cons r rs ih =>
+    obtain ⟨enc, ps⟩ := r
+    simp only [readSeqFrom, List.map_cons, ih]
+    rfl
+
+/-- the k-th body after any prefix of earlier responses -/
+theorem kth_body_independent_of_prefix (d : Dec I) (pre post : List (Option Str × List Bytes))
+    (enc : Option Str) (ps : List Bytes) :
+    (readSeqFrom I d (pre ++ (enc, ps) :: post))[pre.length]? =
+      some (readBody I (codingOf (enc.getD [])) ps) := by
+  rw [sequence_is_per_response]
+  simp
+
+/-- an identity body after a gzip body on the same Stream (the input of seeded change C19-3) -/
+example : readSeqFrom toy .none [(some (lit "gzip"), [[0x1f, 0x8b, 1, 65, 0]]), (none, [[104, 105]])]
+    = [.ok [65], .ok [104, 105]] := by decide
+
 /-! ### non-vacuity: the hypothesis is satisfiable and the conclusions are not trivial -/
 
 /-- gzip stream "AB" in three pieces, the first one a single byte -/
